@@ -35,25 +35,40 @@ res['confirmed'] = bool(res.get('applies') and res.get('demo_unchanged_rc') == 0
 print(json.dumps(res))
 if not res['confirmed']:
     sys.exit(1)
-# run the checks against it on /repo itself
-assert sh('git -C /repo status --porcelain')[1].strip() == '', 'repo not clean'
-rc, out = sh('git -C /repo apply %s' % patch)
-assert rc == 0, out
+# run the checks against it: on /repo itself (apply, check, revert), or — SEED_WORKTREE=1, used while
+# other work needs /repo unchanged — on a scratch worktree through YABGP_REPO
+WT = os.environ.get('SEED_WORKTREE') == '1'
+envp = ''
+if WT:
+    wt2 = '/tmp/seedrun_%s' % sid
+    sh('git -C /repo worktree remove --force %s' % wt2)
+    rc, out = sh('git -C /repo worktree add --detach %s HEAD' % wt2)
+    assert rc == 0, out
+    rc, out = sh('git -C %s apply %s' % (wt2, patch))
+    assert rc == 0, out
+    envp = 'YABGP_REPO=%s ' % wt2
+else:
+    assert sh('git -C /repo status --porcelain')[1].strip() == '', 'repo not clean'
+    rc, out = sh('git -C /repo apply %s' % patch)
+    assert rc == 0, out
 checks = {}
 try:
     for p in [prop] + extra:
         t = time.time()
-        rc, out = sh('cd /verif && timeout 1500 ./bin/check %s --tier quick' % p)
+        rc, out = sh('cd /verif && %stimeout 1500 ./bin/check %s --tier quick' % (envp, p))
         lines = [l for l in out.split('\n') if l.startswith('VIOLATION') or l.startswith('OK ')]
         detail = [l for l in out.split('\n') if l.startswith('  ')][:2]
         checks[p] = {'rc': rc, 'line': (lines[-1] if lines else out[-300:])[:400], 'detail': detail, 'wall_s': round(time.time() - t)}
         if rc == 0 and p == prop:
             t = time.time()
-            rc2, out2 = sh('cd /verif && timeout 3000 ./bin/check %s --tier thorough' % p)
+            rc2, out2 = sh('cd /verif && %stimeout 3000 ./bin/check %s --tier thorough' % (envp, p))
             lines = [l for l in out2.split('\n') if l.startswith('VIOLATION') or l.startswith('OK ')]
             checks[p + ':thorough'] = {'rc': rc2, 'line': (lines[-1] if lines else out2[-300:])[:400], 'wall_s': round(time.time() - t)}
 finally:
-    sh('git -C /repo checkout -- .')
+    if WT:
+        sh('git -C /repo worktree remove --force %s' % wt2)
+    else:
+        sh('git -C /repo checkout -- .')
     # gen files were regenerated from the changed tree: regenerate from the clean tree
     sh('cd /verif && /venv/bin/python -B harness/common.py regen')
 res['checks'] = checks
@@ -62,6 +77,15 @@ dst = os.path.join('/verif/seeded', sid)
 os.makedirs(dst, exist_ok=True)
 shutil.copy(patch, os.path.join(dst, 'patch.diff'))
 shutil.copy(demo, os.path.join(dst, 'demo.py'))
+old = os.path.join(dst, 'meta.json')
+if os.path.exists(old):
+    om = json.load(open(old))
+    if om.get('before_strengthening'):
+        meta['before_strengthening'] = om['before_strengthening']
+    elif om.get('checks_run') and not om.get('detected'):
+        meta['before_strengthening'] = om['checks_run']
+if os.environ.get('SEED_NOTE'):
+    meta['strengthening'] = os.environ['SEED_NOTE']
 meta['confirmation'] = {k: res[k] for k in ('demo_unchanged_rc', 'demo_changed_rc', 'unit_tests', 'applies')}
 meta['checks_run'] = checks
 meta['detected'] = res['detected']
